@@ -15,7 +15,7 @@ ASSUMPTIONS = ["standard forms: six two-digit hexadecimal groups separated by ':
 HARNESS_TIMEOUT = 300
 DRIVER_TIMEOUT = 600
 
-spec_override, judge, classify, model_skip = P.make_hooks("C18", "GSW")
+spec_override, judge, classify = P.make_hooks("C18", "GSW")
 canon = P.canon
 
 
@@ -134,8 +134,8 @@ def cases(ctx):
                                               "00000::1", "1:2:3:4:5:6:7:00008")]
     seen = set()
     for kind, t, tag in texts:
-        if (kind, t) in seen:
-            continue
+        if (kind, t) in seen or t == "":
+            continue            # the empty text goes through the property path only (an op line cannot carry an empty token)
         seen.add((kind, t))
         out.append(Case(f"addr {kind} {hx(t)}", ("addr", kind, tag)))
     # --- through the property path: assign the text, read it back, serialise, re-parse, read again
@@ -149,4 +149,4 @@ def cases(ctx):
         frame = P.build(shapes[host], rng)
         p = rng.choice(props)
         out.append(Case(P.pkt_line(frame, [f"S{p}={wire.s(t)}", f"G{p}", "W", "R", f"G{p}"]), ("property", kind, tag)))
-    return out
+    return P.with_fix(ctx, out)
